@@ -271,15 +271,18 @@ func TransCtrlSeq(str string, ansi bool) (dst string, change bool) {
 	dst = fmtPat.ReplaceAllStringFunc(
 		str,
 		func(str string) string {
-			f, ok := fmtCode[str[2]]
-			if ok {
-				if ansi {
-					change = true
-					return "\033[" + f + "m" // enable, add ANSI code
-				}
+			if !ansi {
 				return "" // disable, remove the § code
 			}
-			return str // not a § code
+			code := str[2]
+			if code >= 'A' && code <= 'Z' {
+				code += 'a' - 'A' // codes are case-insensitive
+			}
+			if f, ok := fmtCode[code]; ok {
+				change = true
+				return "\033[" + f + "m" // enable, add ANSI code
+			}
+			return "" // a valid code without an ANSI equivalent (§k)
 		},
 	)
 	return
